@@ -345,7 +345,7 @@ def bindPos (env : Env) : List String → List Val → Except EErr (Env × List 
 
 def bindParams (ps : List String) (vs : List Val) (kwn : List String) (kvs : List Val) (env : Env) :
     Except EErr Env := do
-  if ps.eraseDups.length ≠ ps.length then .error .arity else
+  if !distinctS ps then .error .arity else
   let (env1, rest) ← bindPos env ps vs
   let (env2, rest2) ← bindKw rest env1 kwn kvs
   if rest2.isEmpty then pure env2 else .error .arity
